@@ -419,6 +419,21 @@ class OpGen:
             m = c['methods'][0]
             params = []
             for q in m['params']:
+                if q['type'] == 'reference':
+                    cands = [mg.path_of(self.cmap, i, n2)
+                             for n2 in self.m['namespaces']
+                             for i in self.m['instances'].get(n2, [])
+                             if mg.is_subclass(self.cmap, i['cls'], q['ref'])]
+                    if not cands or r.random() < 0.15:
+                        continue
+                    if q.get('array'):
+                        v = {'t': 'reference', 'a': [
+                            None if r.random() < 0.3 else r.choice(cands)
+                            for _ in range(r.choice([0, 1, 2, 2, 3]))]}
+                    else:
+                        v = {'t': 'reference', 'v': r.choice(cands)}
+                    params.append([_case(r, q['name']), v])
+                    continue
                 if r.random() < 0.9:
                     v = mg.gen_value(r, q['type'], q.get('array', False),
                                      0.1)
